@@ -353,7 +353,7 @@ SetMaxId(s, start, n) ==
 \* fix: commits are FALSE; dup, clash, bmdang are the listed findings pageorder.dupkids, pageorder.numclash,
 \* bookmark.dangling.capture -- flip them when their fixes are in).  NoDev = every deviation repaired.
 Dev(chain, dang, dup, clash, bmdang) == [chain |-> chain, dang |-> dang, dup |-> dup, clash |-> clash, bmdang |-> bmdang]
-CodeDev == Dev(FALSE, FALSE, TRUE, TRUE, TRUE)
+CodeDev == Dev(FALSE, FALSE, FALSE, FALSE, FALSE)     \* all repaired (f680fb8, 8f131f7, a548fc6)
 NoDev   == Dev(FALSE, FALSE, FALSE, FALSE, FALSE)
 
 ImplRunX(d, start, dv) ==
@@ -382,40 +382,53 @@ ImplRenumber(d, start, devChain, devDang) == DocOfState(ImplRun(d, start, devCha
 
 \* Signature refinement of a failing "bookmark" clause: it is the confirmed pair-by-pair chain
 \* exactly when the observed targets are the ones the pair-by-pair transcription predicts.
-ClassifyChain(b, a, start) ==
+\* ctx = the switches of the algorithm the observation comes from (CodeDev for observations of lopdf,
+\* the run's own switches in MC_Renumber): a defect is always judged "seeded into that algorithm".
+ClassifyChain(b, a, start, ctx) ==
     LET fs == Fails(b, a, start) IN
-    IF "bookmark" \in fs /\ a.bms = ImplRun(b, start, TRUE, TRUE).bms /\ a.bms # ImplRun(b, start, FALSE, TRUE).bms
+    IF "bookmark" \in fs /\ a.bms = ImplRunX(b, start, [ctx EXCEPT !.chain = TRUE]).bms
+                         /\ a.bms # ImplRunX(b, start, [ctx EXCEPT !.chain = FALSE]).bms
     THEN (fs \ {"bookmark"}) \cup {"bookmark.chain"} ELSE fs
 
 \* Input classes of the two page-order findings (computed from the document alone):
 \*  DupKids  -- a page is listed more than once in the page tree and the page-order pass runs;
 \*  NumClash -- the pass runs and would re-key some page to <<number of the sorted slot, own generation>>
-\*              where that id belongs to an object that is not one of the pages.
+\*              where that id belongs to an object that is not one of the pages, or where two different
+\*              pages get the same such id (both need two live objects under one object number).
 DupKids(b)  == /\ b.pages # SortSeq(b.pages, IdLess)
                /\ \E i, j \in 1..Len(b.pages) : i # j /\ b.pages[i] = b.pages[j]
-NumClash(b) == LET srt == SortSeq(b.pages, IdLess) IN
-               /\ b.pages # srt
-               /\ \E i \in 1..Len(b.pages) :
-                     LET k == <<srt[i][1], b.pages[i][2]>> IN
-                     k \in Ids(b) /\ \A j \in 1..Len(b.pages) : b.pages[j] # k
+NumClash(b) == LET pg   == FirstOnly(b.pages)           \* the class is about distinct pages (duplicates: DupKids)
+                   srt  == SortSeq(pg, IdLess)
+                   K(i) == <<srt[i][1], pg[i][2]>>
+               IN
+               /\ pg # srt
+               /\ \/ \E i \in 1..Len(pg) : K(i) \in Ids(b) /\ \A j \in 1..Len(pg) : pg[j] # K(i)
+                  \/ \E i, j \in 1..Len(pg) : i # j /\ K(i) = K(j)
 
 \* clauses whose tag already names a narrow class by itself
 SelfClassified == {"dangling.capture", "dangling.capture.pageorder", "bookmark.chain", "bookmark.dangling.capture"}
 
 \* The remaining failing clauses are attributed to pageorder.dupkids / pageorder.numclash exactly when the
-\* document is in the class, the observed result is the one the transcription *with* these two deviations
-\* predicts, and the transcription *without* them fails none of those clauses on this document.
-Classify(b, a, start) ==
-    LET fs   == ClassifyChain(b, a, start)
+\* document is in the class, the observed result is the one the transcription *with* the deviation (one of
+\* the two, or both) predicts, and the transcription *without* them fails none of those clauses on this
+\* document.
+SameResult(r, a) == r.objs = a.objs /\ r.trailer = a.trailer /\ r.bms = a.bms /\ r.max_id = a.max_id
+
+ClassifyX(b, a, start, ctx) ==
+    LET fs   == ClassifyChain(b, a, start, ctx)
         rest == fs \ SelfClassified
     IN IF rest = {} \/ ~(DupKids(b) \/ NumClash(b)) THEN fs
-       ELSE LET with    == ImplRunX(b, start, [CodeDev EXCEPT !.dup = TRUE, !.clash = TRUE])
-                without == ImplRunX(b, start, [CodeDev EXCEPT !.dup = FALSE, !.clash = FALSE])
-            IN IF /\ with.objs = a.objs /\ with.trailer = a.trailer /\ with.bms = a.bms /\ with.max_id = a.max_id
-                  /\ Fails(b, DocOfState(without), start) \cap rest = {}
-               THEN (fs \ rest) \cup (IF DupKids(b) THEN {"pageorder.dupkids"} ELSE {})
-                                \cup (IF NumClash(b) THEN {"pageorder.numclash"} ELSE {})
-               ELSE fs
+       ELSE LET cands   == << [dup |-> FALSE, clash |-> TRUE], [dup |-> TRUE, clash |-> FALSE], [dup |-> TRUE, clash |-> TRUE] >>
+                run(c)  == ImplRunX(b, start, [ctx EXCEPT !.dup = c.dup, !.clash = c.clash])
+                hits    == {i \in 1..3 : SameResult(run(cands[i]), a)}
+                without == ImplRunX(b, start, [ctx EXCEPT !.dup = FALSE, !.clash = FALSE])
+            IN IF hits = {} \/ Fails(b, DocOfState(without), start) \cap rest # {} THEN fs
+               ELSE LET c    == cands[CHOOSE i \in hits : \A j \in hits : i <= j]
+                        tags == (IF c.dup /\ DupKids(b) THEN {"pageorder.dupkids"} ELSE {})
+                                \cup (IF c.clash /\ NumClash(b) THEN {"pageorder.numclash"} ELSE {})
+                    IN IF tags = {} THEN fs ELSE (fs \ rest) \cup tags
+
+Classify(b, a, start) == ClassifyX(b, a, start, CodeDev)
 
 -----------------------------------------------------------------------------
 (* wire <-> document *)
